@@ -1,1 +1,189 @@
-(* C03 — property theorems (being filled in) *)
+(* C03 — property theorems only: each closed by [exact], each followed by Print Assumptions.
+
+   Reading the statements.  [inp] is one run as the harness scripts it: frames per packet, the channel
+   groups with the packets sampled at start-up, and for tick 1, 2, ... the packets that arrive in it
+   (any batching: empty ticks, a group without data for any number of ticks).
+   [valid_inputb inp = true] is the premise of the property: packets come from the groups seen at
+   start-up, per group in strictly increasing sequence order (any subset lost), one frames-per-packet
+   value, no uint32 wrap.  [os] gives, for every tick, the two orders in which Go happens to visit
+   the group map in the two range loops of readerMainLoop: ANY permutations of the groups.
+   [run (init_src ...) (combine ticks os)] is the mirror model of the repaired reader loop
+   (Model.v); [blocks] are the blocks it delivers through getNextBlock.
+   Spec.v defines: start/finish (first-1 and last global sequence number delivered), chan_range
+   (channel c of a group over a range of global slots: data(sn)[c] if sn arrived, else filler(sn)[c] made
+   from the next packet that did arrive), chan_out (a channel's concatenated output), chan_pos. *)
+From Dastard Require Import Common.ZX C03.Model C03.Spec C03.Lemmas C03.GroupProofs C03.TickProofs C03.Run
+  C03.Proofs C03.PropProofs.
+
+(* demux_exact: for every arrival pattern, every batching into ticks and every visiting order, channel
+   c of group i outputs, in order, for global sequence numbers start+1 .. finish, exactly data(sn)[c]
+   where sn arrived and filler(sn)[c] where it was lost; hence fpp * (finish - start) samples. *)
+Theorem demux_exact :
+  forall (inp : input) (os : list (list nat * list nat)),
+    valid_inputb inp = true -> length os = length (i_ticks inp) ->
+    Forall (fun o => (NoDup (fst o) /\ forall i, In i (fst o) <-> (i < length (i_groups inp))%nat) /\
+                     (NoDup (snd o) /\ forall i, In i (snd o) <-> (i < length (i_groups inp))%nat)) os ->
+    exists st' blocks,
+      run (init_src (map (fun gi => (gi_off gi, gi_nchan gi, gi_sampled gi)) (i_groups inp)))
+          (combine (i_ticks inp) os) = Ok (st', blocks) /\
+      forall i gi c, nth_error (i_groups inp) i = Some gi -> 0 <= c < gi_nchan gi ->
+        chan_out blocks (chan_pos (i_groups inp) i c)
+        = chan_range (i_fpp inp) gi (concat (i_ticks inp)) c (start inp) (finish inp)
+        /\ zlen (chan_out blocks (chan_pos (i_groups inp) i c)) = i_fpp inp * (finish inp - start inp).
+Proof. exact thm_demux_exact. Qed.
+Print Assumptions demux_exact.
+
+(* groups_aligned: every block has one length on all channels and one first frame on all segments,
+   first frames are contiguous, every block carries all channels, and the frame number is the
+   position in the aligned stream in EVERY group: sample x of a block whose first frame is f holds
+   sample f+x of the channel's exact stream, i.e. global sequence number start+1+(f+x)/fpp. *)
+Theorem groups_aligned :
+  forall (inp : input) (os : list (list nat * list nat)),
+    valid_inputb inp = true -> length os = length (i_ticks inp) ->
+    Forall (fun o => (NoDup (fst o) /\ forall i, In i (fst o) <-> (i < length (i_groups inp))%nat) /\
+                     (NoDup (snd o) /\ forall i, In i (snd o) <-> (i < length (i_groups inp))%nat)) os ->
+    exists st' blocks,
+      run (init_src (map (fun gi => (gi_off gi, gi_nchan gi, gi_sampled gi)) (i_groups inp)))
+          (combine (i_ticks inp) os) = Ok (st', blocks) /\
+      contiguous (frame0 blocks) blocks /\
+      (forall k, In k blocks -> zlen (k_segs k) = zsum (map gi_nchan (i_groups inp))) /\
+      forall k i gi c x, In k blocks -> nth_error (i_groups inp) i = Some gi -> 0 <= c < gi_nchan gi ->
+        0 <= x < k_nsamp k ->
+        let s := nth (chan_pos (i_groups inp) i c) (k_segs k) dseg in
+        znth 0 (sg_data s) x
+        = znth 0 (chan_range (i_fpp inp) gi (concat (i_ticks inp)) c (start inp) (finish inp))
+               (sg_first s - frame0 blocks + x).
+Proof. exact thm_groups_aligned. Qed.
+Print Assumptions groups_aligned.
+
+(* dropped_equals_filled: all segments of a block report the same count, and the counts add up to
+   fpp for every packet of every group known to be lost when the last block was made. *)
+Theorem dropped_equals_filled :
+  forall (inp : input) (os : list (list nat * list nat)),
+    valid_inputb inp = true -> length os = length (i_ticks inp) ->
+    Forall (fun o => (NoDup (fst o) /\ forall i, In i (fst o) <-> (i < length (i_groups inp))%nat) /\
+                     (NoDup (snd o) /\ forall i, In i (snd o) <-> (i < length (i_groups inp))%nat)) os ->
+    exists st' blocks,
+      run (init_src (map (fun gi => (gi_off gi, gi_nchan gi, gi_sampled gi)) (i_groups inp)))
+          (combine (i_ticks inp) os) = Ok (st', blocks) /\
+      (forall k s, In k blocks -> In s (k_segs k) -> sg_dropped s = block_dropped k) /\
+      zsum (map block_dropped blocks)
+      = i_fpp inp * total_missing inp (seen_at_last inp [] (start inp) (i_ticks inp) []).
+Proof. exact thm_dropped_equals_filled. Qed.
+Print Assumptions dropped_equals_filled.
+
+(* tick_order_independent: whatever orders Go's map iteration takes in whatever tick, the delivered
+   blocks are the same (they are the blocks Spec.expected_blocks computes from the input alone). *)
+Theorem tick_order_independent :
+  forall (inp : input) (os os' : list (list nat * list nat)),
+    valid_inputb inp = true ->
+    length os = length (i_ticks inp) -> length os' = length (i_ticks inp) ->
+    Forall (fun o => (NoDup (fst o) /\ forall i, In i (fst o) <-> (i < length (i_groups inp))%nat) /\
+                     (NoDup (snd o) /\ forall i, In i (snd o) <-> (i < length (i_groups inp))%nat)) os ->
+    Forall (fun o => (NoDup (fst o) /\ forall i, In i (fst o) <-> (i < length (i_groups inp))%nat) /\
+                     (NoDup (snd o) /\ forall i, In i (snd o) <-> (i < length (i_groups inp))%nat)) os' ->
+    exists st st',
+      run (init_src (map (fun gi => (gi_off gi, gi_nchan gi, gi_sampled gi)) (i_groups inp)))
+          (combine (i_ticks inp) os) = Ok (st, expected_blocks inp) /\
+      run (init_src (map (fun gi => (gi_off gi, gi_nchan gi, gi_sampled gi)) (i_groups inp)))
+          (combine (i_ticks inp) os') = Ok (st', expected_blocks inp).
+Proof. exact run_order_independent. Qed.
+Print Assumptions tick_order_independent.
+
+(* The model's output passes the observable checker used on the implementation (never panics on a
+   valid input, delivers exactly the expected blocks). *)
+Theorem model_passes_checker :
+  forall (inp : input) (os : list (list nat * list nat)),
+    valid_inputb inp = true -> length os = length (i_ticks inp) ->
+    Forall (fun o => (NoDup (fst o) /\ forall i, In i (fst o) <-> (i < length (i_groups inp))%nat) /\
+                     (NoDup (snd o) /\ forall i, In i (snd o) <-> (i < length (i_groups inp))%nat)) os ->
+    exists st' blocks,
+      run (init_src (map (fun gi => (gi_off gi, gi_nchan gi, gi_sampled gi)) (i_groups inp)))
+          (combine (i_ticks inp) os) = Ok (st', blocks) /\
+      blocks = expected_blocks inp /\ C03_check inp (Some blocks) = true.
+Proof. exact thm_model_passes_checker. Qed.
+Print Assumptions model_passes_checker.
+
+(* What the checker's "true" means for ANY observed output, independent of the model. *)
+Theorem checker_sound :
+  forall (inp : input) (blocks : list block),
+    valid_inputb inp = true -> C03_check inp (Some blocks) = true ->
+    forall i gi c, nth_error (i_groups inp) i = Some gi -> 0 <= c < gi_nchan gi ->
+      chan_out blocks (chan_pos (i_groups inp) i c)
+      = chan_range (i_fpp inp) gi (concat (i_ticks inp)) c (start inp) (finish inp).
+Proof. exact thm_checker_sound. Qed.
+Print Assumptions checker_sound.
+
+(* The run used by the correspondence check (groups visited in sorted order) is one of these runs. *)
+Theorem model_blocks_are_expected :
+  forall inp, valid_inputb inp = true -> model_blocks inp = Ok (expected_blocks inp).
+Proof. exact model_blocks_expected. Qed.
+Print Assumptions model_blocks_are_expected.
+
+(* Invariant: after any valid history each queue holds exactly the gap-filled run (consumed, lastSN]
+   — slot sn holds the packet that arrived with that number or a pretend packet made from the next one
+   that did — followed by the packets that arrived after the last fill. *)
+Theorem queue_invariant :
+  forall (inp : input) (os : list (list nat * list nat)),
+    valid_inputb inp = true -> length os = length (i_ticks inp) ->
+    Forall (fun o => (NoDup (fst o) /\ forall i, In i (fst o) <-> (i < length (i_groups inp))%nat) /\
+                     (NoDup (snd o) /\ forall i, In i (snd o) <-> (i < length (i_groups inp))%nat)) os ->
+    exists st',
+      run (init_src (map (fun gi => (gi_off gi, gi_nchan gi, gi_sampled gi)) (i_groups inp)))
+          (combine (i_ticks inp) os) = Ok (st', expected_blocks inp) /\
+      length (s_groups st') = length (i_groups inp) /\
+      forall i, (i < length (i_groups inp))%nat ->
+        let g := nth i (s_groups st') dgroup in let gi := nth i (i_groups inp) dgi in
+        exists c arrF arrU,
+          arrivals gi (concat (i_ticks inp)) = arrF ++ arrU /\
+          g_last g = newest arrF (last0 gi) /\ last0 gi <= c <= g_last g /\
+          g_queue g = map (slot_packet (gi_nchan gi) arrF) (zrange (c + 1) (g_last g - c)) ++ arrU.
+Proof. exact model_queue_invariant. Qed.
+Print Assumptions queue_invariant.
+
+(* Non-vacuity: a concrete input with two groups, a lost packet and a lagging group meets the premise
+   (it is the witness of the refutation theorems below), and the identity orders are permutations. *)
+Example premise_met : valid_inputb old_witness = true /\ total_missing old_witness (concat (i_ticks old_witness)) = 1.
+Proof. exact (conj (proj1 old_refuted_A_first) eq_refl). Qed.
+
+Example premise_orders_met :
+  Forall (fun o => (NoDup (fst o) /\ forall i, In i (fst o) <-> (i < length (i_groups old_witness))%nat) /\
+                   (NoDup (snd o) /\ forall i, In i (snd o) <-> (i < length (i_groups old_witness))%nat))
+         [([0; 1], [1; 0]); ([1; 0], [0; 1])]%nat.
+Proof.
+  assert (P01 : NoDup [0; 1]%nat /\ forall i, In i [0; 1]%nat <-> (i < 2)%nat).
+  { split; [repeat constructor; cbn; intuition lia|]. intros i; cbn; lia. }
+  assert (P10 : NoDup [1; 0]%nat /\ forall i, In i [1; 0]%nat <-> (i < 2)%nat).
+  { split; [repeat constructor; cbn; intuition lia|]. intros i; cbn; lia. }
+  apply Forall_cons; [cbn [fst snd]; split; [exact P01 | exact P10]|].
+  apply Forall_cons; [cbn [fst snd]; split; [exact P10 | exact P01] | apply Forall_nil].
+Qed.
+
+(* ---- the code before the two repairs (fillMissingPackets recounting leftovers; dropped-frame counts
+        forgotten when a tick is abandoned) ---- *)
+Theorem demux_exact_refuted_pre_fix :
+  valid_inputb old_witness = true /\
+  blocks_of (run_old (init_of old_witness) (combine (i_ticks old_witness) [([0; 1], [0; 1]); ([0; 1], [0; 1])]%nat))
+  = Some [B 6 [S 0 0 [30; 31; 40; 41; 60; 61]; S 0 0 [130; 131; 140; 141; 150; 151]]] /\
+  C03_check old_witness
+    (blocks_of (run_old (init_of old_witness) (combine (i_ticks old_witness) [([0; 1], [0; 1]); ([0; 1], [0; 1])]%nat)))
+  = false.
+Proof. exact old_refuted_A_first. Qed.
+Print Assumptions demux_exact_refuted_pre_fix.
+
+Theorem tick_order_independent_refuted_pre_fix :
+  blocks_of (run_old (init_of old_witness) (combine (i_ticks old_witness) [([1; 0], [0; 1]); ([0; 1], [0; 1])]%nat))
+  = Some (expected_blocks old_witness) /\
+  blocks_of (run_old (init_of old_witness) (combine (i_ticks old_witness) [([0; 1], [0; 1]); ([0; 1], [0; 1])]%nat))
+  <> Some (expected_blocks old_witness).
+Proof. exact old_order_dependent. Qed.
+Print Assumptions tick_order_independent_refuted_pre_fix.
+
+Theorem dropped_equals_filled_refuted_pre_fix :
+  valid_inputb old_drop_witness = true /\
+  (exists bl, blocks_of (run_old (init_of old_drop_witness)
+                          (combine (i_ticks old_drop_witness) [([0; 1], [0; 1]); ([0; 1], [0; 1])]%nat)) = Some bl
+              /\ zsum (map block_dropped bl) = 0) /\
+  zsum (map block_dropped (expected_blocks old_drop_witness)) = 2.
+Proof. exact old_drop_lost. Qed.
+Print Assumptions dropped_equals_filled_refuted_pre_fix.
